@@ -92,6 +92,8 @@ def build(desc):
         return float(desc[1])
     if t == 'sub':
         return U.SUBCLASS_LEAVES[desc[1]]()
+    if t == 'arr':
+        return ARRAY_FACTORY(desc)     # set by the C20 check (backend specific)
     if t == 'none':
         return None
     if t == 'tuple':
@@ -450,7 +452,8 @@ def kw(cfg):
 # ---------------------------------------------------------------- description surgery and pairs
 import copy as _copy  # noqa: E402
 
-LEAF_TAGS = ('L', 'i', 's', 'f', 'sub')
+LEAF_TAGS = ('L', 'i', 's', 'f', 'sub', 'arr')
+ARRAY_FACTORY = None
 
 
 def children_refs(desc):
